@@ -191,6 +191,18 @@ func VerifyFunc(prog *Program, pk *Pkg, fc *FuncContract, tier string) (rep *Fun
 	}
 	entry.pc = st.pc
 	c.cover(st, "requires-satisfiable", fd.Pos())
+	// modifies footprint, evaluated once at entry
+	{
+		fenv := c.newEnv(entry, entry)
+		fenv.scopePos = token.NoPos
+		c.bindParamsEntry(fenv)
+		c.noName++
+		for _, cl := range fc.Modifies {
+			c.footprint = append(c.footprint, c.modTargets(fenv, cl)...)
+		}
+		c.noName--
+		c.footprintReady = true
+	}
 
 	// body
 	out := c.execBlock(st, fd.Body.List)
@@ -240,7 +252,6 @@ func (c *Ctx) checkEnsures(end, entry *State, fc *FuncContract, sig *types.Signa
 		o := c.oblige(end, "ensures", cl.Label, fd.Pos(), goal, cl.Text)
 		_ = o
 	}
-	c.checkFrame(end, entry, fc, env)
 }
 
 // checkFrame: every heap cell of an object that existed at entry and is outside the modifies footprint is unchanged.
@@ -274,7 +285,9 @@ func (c *Ctx) checkFrame(end, entry *State, fc *FuncContract, env *SpecEnv) {
 			if t.fam != f {
 				continue
 			}
-			if t.idx == nil {
+			if t.lo != nil {
+				excl = append(excl, Not(And(Eq(r, t.ref), c.ile(*t.lo, i), c.ilt(i, *t.hi))))
+			} else if t.idx == nil {
 				excl = append(excl, Not(Eq(r, t.ref)))
 			} else {
 				excl = append(excl, Not(And(Eq(r, t.ref), Eq(i, *t.idx))))
@@ -346,7 +359,7 @@ func VerifyLemma(prog *Program, pk *Pkg, lm *Lemma, tier string) (rep *FuncRepor
 			ln := c.declare(p.Name+".len", c.idxSort())
 			facts = append(facts, c.ile(c.idx(0), ln))
 			if c.mode == ModeBV {
-				facts = append(facts, c.ile(ln, IntLit(bvSort(64), pow2(62))))
+				facts = append(facts, c.ile(ln, IntLit(bvSort(64), pow2(60))))
 			}
 			if c.mode == ModeInt {
 				if lo, hi, ok := typeRange(sl.Elem()); ok {
